@@ -362,11 +362,17 @@ func (b *sourcePathsBuilder) remapDescriptor(
 			return nil, false, err
 		}
 		isDirty = isDirty || changed
+		// Fields refer to their oneof by index, so compute where each oneof
+		// ends up before the oneofs are remapped (which may be done in place).
+		newOneofIndexes, oneofsMoved := b.newOneofIndexes(descriptor.OneofDecl)
 		newOneofs, changed, err := remapSlice(sourcePathsRemap, append(sourcePath, messageOneofsTag), descriptor.OneofDecl, b.remapOneof, b.options)
 		if err != nil {
 			return nil, false, err
 		}
 		isDirty = isDirty || changed
+		if oneofsMoved {
+			newFields = remapOneofIndexes(newFields, newOneofIndexes, b.options)
+		}
 		if isDirty {
 			newDescriptor = maybeClone(descriptor, b.options)
 			newDescriptor.Field = newFields
@@ -411,6 +417,48 @@ func (b *sourcePathsBuilder) remapEnum(
 		return nil, true, nil
 	}
 	return enum, false, nil
+}
+
+// newOneofIndexes returns the index each oneof has once the excluded oneofs are
+// removed, and whether any remaining oneof moves.
+func (b *sourcePathsBuilder) newOneofIndexes(oneofs []*descriptorpb.OneofDescriptorProto) ([]int32, bool) {
+	newIndexes := make([]int32, len(oneofs))
+	moved := false
+	toIndex := int32(0)
+	for fromIndex, oneof := range oneofs {
+		if mode, ok := b.closure.elements[oneof]; ok && mode == inclusionModeExcluded {
+			newIndexes[fromIndex] = -1
+			continue
+		}
+		newIndexes[fromIndex] = toIndex
+		moved = moved || int(toIndex) != fromIndex
+		toIndex++
+	}
+	return newIndexes, moved
+}
+
+// remapOneofIndexes points the oneof index of the fields at the new position of their oneof.
+func remapOneofIndexes(
+	fields []*descriptorpb.FieldDescriptorProto,
+	newOneofIndexes []int32,
+	options *imageFilterOptions,
+) []*descriptorpb.FieldDescriptorProto {
+	if !options.mutateInPlace {
+		fields = slices.Clone(fields)
+	}
+	for i, field := range fields {
+		if field.OneofIndex == nil {
+			continue
+		}
+		oldIndex := field.GetOneofIndex()
+		if oldIndex < 0 || int(oldIndex) >= len(newOneofIndexes) || newOneofIndexes[oldIndex] == oldIndex {
+			continue
+		}
+		newField := maybeClone(field, options)
+		newField.OneofIndex = proto.Int32(newOneofIndexes[oldIndex])
+		fields[i] = newField
+	}
+	return fields
 }
 
 func (b *sourcePathsBuilder) remapOneof(
